@@ -622,8 +622,8 @@ def gen(rng, tier):
     q = tier == "quick"
     cases = gen_cap_sweep(7 if q else 9, "cap")
     cases += gen_guard_exhaustive("g3-")
-    cases += gen_many_ranges(rng, 40 if q else 1500, "mr")
-    cases += gen_drained(rng, 30 if q else 600, "dr")
+    cases += gen_many_ranges(rng, 40 if q else 300, "mr")
+    cases += gen_drained(rng, 30 if q else 300, "dr")
     cases += [gen_rcvd_case(rng, "r%d" % i) for i in range(1500 if q else 30000)]
     cases += [gen_rcvd_case(rng, "rb%d" % i, big=True) for i in range(6 if q else 80)]
     cases += [gen_sent_case(rng, "s%d" % i) for i in range(1500 if q else 30000)]
